@@ -40,63 +40,55 @@ func (i *index) Clear() {
 	i.refs = map[string]string{}
 }
 
-func (i *index) putData(key string, item map[string]*types.Item) error {
+// set makes the index hold the index key of the item for the primary key,
+// replacing whatever it held for that primary key before; an item without
+// the index key attributes is not in the index (secondary indexes are sparse)
+func (i *index) set(key string, item map[string]*types.Item) error {
 	indexKey, err := i.keySchema.GetKey(i.Table.AttributesDef, item)
-	if err != nil || indexKey == "" {
+	if err != nil {
 		return err
 	}
 
-	_, exists := i.refs[key]
+	i.remove(key)
 
-	i.refs[key] = indexKey
-
-	if !exists {
-		i.sortedKeys = append(i.sortedKeys, indexKey)
-		sort.Strings(i.sortedKeys)
+	if indexKey == "" {
+		return nil
 	}
 
+	i.refs[key] = indexKey
+	i.sortedKeys = append(i.sortedKeys, indexKey)
+	sort.Strings(i.sortedKeys)
+
 	return nil
+}
+
+// remove drops the entry of the primary key, if there is one
+func (i *index) remove(key string) {
+	indexKey, exists := i.refs[key]
+	if !exists {
+		return
+	}
+
+	delete(i.refs, key)
+
+	pos := sort.SearchStrings(i.sortedKeys, indexKey)
+	if pos == len(i.sortedKeys) || i.sortedKeys[pos] != indexKey {
+		return
+	}
+
+	i.sortedKeys = append(i.sortedKeys[:pos], i.sortedKeys[pos+1:]...)
+}
+
+func (i *index) putData(key string, item map[string]*types.Item) error {
+	return i.set(key, item)
 }
 
 func (i *index) updateData(key string, item, oldItem map[string]*types.Item) error {
-	indexKey, err := i.keySchema.GetKey(i.Table.AttributesDef, item)
-	if err != nil || indexKey == "" {
-		return err
-	}
-
-	old := i.refs[key]
-	i.refs[key] = indexKey
-
-	if old != indexKey {
-		pos := sort.SearchStrings(i.sortedKeys, old)
-		if pos >= len(i.sortedKeys) {
-			i.sortedKeys = append(i.sortedKeys, indexKey)
-		} else {
-			i.sortedKeys[pos] = indexKey
-		}
-
-		sort.Strings(i.sortedKeys)
-	}
-
-	return nil
+	return i.set(key, item)
 }
 
 func (i *index) delete(key string, item map[string]*types.Item) error {
-	delete(i.refs, key)
-
-	indexKey, err := i.keySchema.GetKey(i.Table.AttributesDef, item)
-	if err != nil || indexKey == "" {
-		return err
-	}
-
-	pos := sort.SearchStrings(i.sortedKeys, indexKey)
-	if pos == len(i.sortedKeys) {
-		return err
-	}
-
-	copy(i.sortedKeys[pos:], i.sortedKeys[pos+1:])
-	i.sortedKeys[len(i.sortedKeys)-1] = ""
-	i.sortedKeys = i.sortedKeys[:len(i.sortedKeys)-1]
+	i.remove(key)
 
 	return nil
 }
